@@ -527,7 +527,7 @@ func Spec() *core.Spec {
 		Level: "exploration",
 		Rule: "exhaustive walk of the registry through the public API (TagString over 0x420000-0x4203FF and 0x540000-0x5400FF, every pinned enumeration value and mask flag, " +
 			"written and read back by name through XML, JSON, binary and the text form), repeated in 3 fresh processes whose observations are compared; once more in a fresh process after vendor extension values (0x8000000x) were registered for three already registered enumerations; plus every element, enumeration-value and mask-flag name used by the 5318 messages of the shipped OASIS vectors (documents produced elsewhere) resolved through pin and library; " +
-			"distinct = distinct registered (scope,name) entries visited",
+			"vendor enumerations under extension tags whose Go type names equal standard tag names; distinct = distinct registered (scope,name) entries visited",
 		Assumptions: []string{"/verif/ref/registry.json is the pinned KMIP 1.0-1.4 registry (dumped from the pinned tree and reviewed against the specification tables)"},
 		Required:    []string{"checks", "unregistered_numbers", "unknown_names", "mask_values.named-pair", "oasis_names.tag", "oasis_names.enum", "oasis_names.mask", "vendor_extension_values", "vendor_type_name_values"},
 		EvalCounter: "checks",
